@@ -201,7 +201,8 @@ func body(services_ []string, fine bool, multi ...bool) func() {
 				vrt.Flag("dialled-twice:" + addr)
 			}
 		}
-		// the session still works afterwards
+		// the session still works afterwards (a probe: default schedule only)
+		vrt.Freeze()
 		p, err := w.sess.Proxy("Probe", 1)
 		if err != nil {
 			vrt.Failf("session-broken", "Proxy(Probe) fails after the concurrent requests: %v", err)
